@@ -48,6 +48,7 @@ WORDS = ['good', 'mua', 'noise', 'a b', ' lead', 'trail ', 'x,y', 'tab\there', '
          '-', 'n/a', 'None', 'True', 'e', '0x', '1e', '--1', 'in f', '',
          # characters that str.splitlines() treats as line breaks but the formats do not; beyond the BMP
          # strings that look like fragments of the formats themselves
+         '#1 unit', '# a comment?', '#',
          'tetrode [ 1, 2,  3 ] is noisy', 'shank [ 0 ]', '{ "a": 1 }', 'x = 3  # note', 'cluster_id',
          'page1\x0cpage2', 'a\u2028b', 'x\x85y', 'v\x0bt', 'g\x1cs\x1dr\x1e', 'p\u2029q', 'mouse\U0001F42D', '\U00020000x']
 
@@ -131,6 +132,12 @@ def run_shard(desc, ctx):
             if idx % ns == sh:
                 run_case({'kind': 'json_array', 'dtype': dt, 'rank': rank, 'layout': lay, 'length': length,
                           'seed': [desc['seed'], idx]}, ctx, d)
+        if sh >= 4 and sh < 8:
+            # several views of ONE buffer in one dictionary: same start address, shape and dtype, different strides
+            base = np.arange(64, dtype=['float64', 'int32', 'float32', 'int16'][sh - 4]).reshape(8, 8) * 3 + 1
+            x = np.arange(48, dtype=base.dtype) - 7
+            views = {'m': base, 'mT': base.T, 'x20': x[:20], 'x40_2': x[:40:2], 7: [base[::2, ::2], base[:4, :4]], 'copy': base.copy()}
+            _roundtrip_json({'kind': 'json_views', 'shard': sh}, ctx, d, views, True, ('json_views',))
         if sh < 4:           # size: arrays beyond 1 MiB of raw data (and one of exactly 1 MiB), long lists, deep nesting
             rngb = np.random.default_rng([desc['seed'], sh, 1818])
             # raw sizes straddling 1 MiB: 2**20 + 8 bytes, 1.6 MB, 1.2 MB (Fortran order), 1.2 MB
@@ -342,6 +349,9 @@ def _params(case, ctx, d):
             return bool(rng.integers(0, 2))
         if k == 4:
             return None
+        if k == 6 and depth == 0 and rng.random() < 0.5:
+            # a long list of names with blanks (a parameter line far beyond any editor's line length)
+            return ['/data/my recordings/session %02d/raw data file.bin' % i for i in range(int(rng.integers(3, 9)))]
         if k == 5 and rng.random() < 0.5:
             return tuple(val(1) for _ in range(int(rng.integers(0, 3))))        # tuples survive a parameter file: (), (x,), (x, y)
         return [val(1) for _ in range(int(rng.integers(0, 4)))]
